@@ -108,6 +108,9 @@ var c12Sources = []*tnode{
 	group("R", "struct", group("LG", "ptrstruct", leaf("L", "slice32")), leaf("Z", "int32")),
 	group("R", "struct", group("GG", "ptrstruct", group("In", "struct", leaf("X", "int32"))), leaf("Z", "int32")),
 	group("R", "struct", group("SO", "slicestruct", leaf("A", "ptrint64"), leaf("N", "slice32")), leaf("Z", "int32")),
+	// a repeated group holding sub-groups only, next to a list that sorts before
+	// it by name and has lengths of its own
+	group("R", "struct", leaf("Attrs", "slice32"), group("Groups", "slicestruct", group("In", "struct", leaf("X", "int32")), group("In2", "ptrstruct", leaf("Y", "string"))), leaf("Z", "int32")),
 	// map values
 	group("R", "struct", leaf("ID", "int64"), group("MS", "mapstruct", leaf("K", "int32"), leaf("V", "ptrstring")), leaf("T", "string")),
 }
@@ -338,6 +341,58 @@ func c12ZeroAt(v reflect.Value, path []string) {
 	}
 }
 
+func hasSlice(t reflect.Type) bool {
+	switch t.Kind() {
+	case reflect.Slice:
+		return t.Elem().Kind() != reflect.Uint8
+	case reflect.Pointer:
+		return hasSlice(t.Elem())
+	case reflect.Struct:
+		for i := 0; i < t.NumField(); i++ {
+			if hasSlice(t.Field(i).Type) {
+				return true
+			}
+		}
+	}
+	return false
+}
+
+// c12Lengthen makes every list reachable without entering a list n elements long
+// (cycling through its elements, or through the element alphabet if it is empty).
+func c12Lengthen(v reflect.Value, n int) {
+	switch v.Kind() {
+	case reflect.Pointer:
+		if !v.IsNil() {
+			c12Lengthen(v.Elem(), n)
+		}
+	case reflect.Struct:
+		for i := 0; i < v.NumField(); i++ {
+			if v.Field(i).CanSet() {
+				c12Lengthen(v.Field(i), n)
+			}
+		}
+	case reflect.Slice:
+		if v.Type().Elem().Kind() == reflect.Uint8 {
+			return
+		}
+		var src []reflect.Value
+		for i := 0; i < v.Len(); i++ {
+			src = append(src, v.Index(i))
+		}
+		if len(src) == 0 {
+			src = alphabet(v.Type().Elem())
+		}
+		if len(src) == 0 {
+			return
+		}
+		out := reflect.MakeSlice(v.Type(), n, n)
+		for i := 0; i < n; i++ {
+			out.Index(i).Set(src[i%len(src)])
+		}
+		v.Set(out)
+	}
+}
+
 var c12Paths = []string{"NewReader(schema)", "ConvertRowGroup", "CopyRows", "MergeRowGroups(schema)", "GenericReader[any](schema)",
 	// the merge planner's row-range view (rows [1, n-1)) of the converted row
 	// group: pages of added columns are sliced, and sliced again
@@ -388,9 +443,21 @@ func c12Run(x *engine.X) {
 	rowsAlpha := rowAlphabet(st)
 	// rows: all alphabet rows in one file (every null/empty/nesting combination at once) or a single row
 	var rows []reflect.Value
-	if c := x.Choose(len(rowsAlpha)+1, "rows"); c == 0 {
+	if c := x.Choose(len(rowsAlpha)+2, "rows"); c == 0 || c == len(rowsAlpha)+1 {
 		for _, r := range rowsAlpha {
 			rows = append(rows, reflect.ValueOf(r))
+		}
+		if c != 0 {
+			// ... followed by a last row whose lists hold 400 elements (more than
+			// the 170- and 1024-value batches the column paths read in)
+			if !hasSlice(st) || len(rowsAlpha) < 2 {
+				return
+			}
+			long := reflect.New(st).Elem()
+			long.Set(reflect.ValueOf(rowsAlpha[1]))
+			c12Lengthen(long, 400)
+			rows = append(rows, long)
+			x.Descf("rows=all+long")
 		}
 	} else {
 		rows = append(rows, reflect.ValueOf(rowsAlpha[c-1]))
